@@ -216,6 +216,12 @@ func (e *twinEnv) queryList() []struct {
 		{"/panacea.pnft.v2.Query/PNFTsByDenomOwner", &pnfttypes.QueryPNFTsByDenomOwnerRequest{DenomId: "d", Owner: e.A.Bech}},
 		{"/panacea.pnft.v2.Query/PNFTsByDenomOwner", &pnfttypes.QueryPNFTsByDenomOwnerRequest{DenomId: "d", Owner: e.B.Bech}},
 		{"/panacea.aol.v2.Query/Writer", &aoltypes.QueryWriterRequest{OwnerAddress: e.A.Bech, TopicName: "a", WriterAddress: e.W.Bech}},
+		// requests that are no single address (two owners who both hold denoms, joined the way a careless client might): whatever
+		// the node answers - normally a refusal - it must answer it every time, on every replica
+		{"/panacea.pnft.v2.Query/DenomsByOwner", &pnfttypes.QueryDenomsByOwnerRequest{Owner: e.A.Bech + "," + e.B.Bech}},
+		{"/panacea.pnft.v2.Query/DenomsByOwner", &pnfttypes.QueryDenomsByOwnerRequest{Owner: e.B.Bech + "," + e.A.Bech + "," + e.W.Bech}},
+		{"/panacea.pnft.v2.Query/PNFTsByDenomOwner", &pnfttypes.QueryPNFTsByDenomOwnerRequest{DenomId: "d", Owner: e.A.Bech + "," + e.B.Bech}},
+		{"/panacea.aol.v2.Query/Topics", &aoltypes.QueryTopicsRequest{OwnerAddress: e.A.Bech + "," + e.B.Bech}},
 	}
 }
 
